@@ -459,6 +459,24 @@ func (env *SpecEnv) call(x *SCall) Val {
 			mtn := typeName(m.T)
 			has := Select(Select(env.st.get(ex.mapHeap(mtn, "has", SBool)), m.one()), refOf(k))
 			return spec1(And(Ne(m.one(), Int(0)), has))
+		case "mapval":
+			// mapval(m, k): the value stored under key k (meaningful when maphas(m, k)); single-leaf element types only
+			m := env.eval(x.Args[0])
+			k := env.eval(x.Args[1])
+			if m.T == nil {
+				sfail("mapval of spec value")
+			}
+			mt, ok := under(m.T).(*types.Map)
+			if !ok {
+				sfail("mapval of non-map")
+			}
+			ls := shape(mt.Elem())
+			if len(ls) != 1 {
+				sfail("mapval: element type with %d leaves", len(ls))
+			}
+			mtn := typeName(m.T)
+			hv := ex.heapInfo("M", mtn, "val"+ls[0].Suffix, ls[0], "M:"+mtn, 2)
+			return Val{T: mt.Elem(), L: []Term{Select(Select(env.st.get(hv), m.one()), refOf(k))}}
 		case "mapbool":
 			// mapbool(m, k): value of a map[K]bool at k (false when absent)
 			m := env.eval(x.Args[0])
@@ -539,6 +557,10 @@ func (env *SpecEnv) call(x *SCall) Val {
 		case "tag":
 			v := env.eval(x.Args[0])
 			return spec1(v.L[0])
+		case "isle":
+			// isle(endian): the binary.ByteOrder value is binary.LittleEndian
+			v := env.eval(x.Args[0])
+			return spec1(Eq(v.L[0], Int(int64(ex.byteOrderTag("littleEndian")))))
 		case "typetag":
 			// typetag(*T): the dynamic type tag interface values holding a *T carry
 			t := env.parseType(x.Raw[0])
